@@ -221,7 +221,10 @@ func check(c Case, o *vf.Obs) error {
 		}
 		ammo["headers"] = hs
 	}
-	gun := map[string]any{"type": "http", "target": addr, "ssl": c.SSL}
+	// connection set-up timeouts (defaults: 3 s dial, 1 s TLS handshake) are not this property's subject: far out of
+	// the way, so that a starved machine does not turn into requests the gun gave up on
+	gun := map[string]any{"type": "http", "target": addr, "ssl": c.SSL,
+		"tls-handshake-timeout": "30s", "dial": map[string]any{"timeout": "30s"}}
 	if c.Connect {
 		gun["type"] = "connect"
 	}
@@ -352,5 +355,8 @@ func check(c Case, o *vf.Obs) error {
 func TestWire(t *testing.T) {
 	pand.Init()
 	r := vf.Start(t, "C09")
-	vf.Check(r, genCase, check)
+	// net/http has timeouts of its own that the gun cannot configure (a connection is not reused when its write loop
+	// has not reported within 50 ms of the answer; a new one is dialled): a failure seen only while the machine kept
+	// goroutines waiting is re-evaluated, and counted inconclusive - never as a pass - if it never fails undisturbed
+	vf.Check(r, genCase, vf.LoadTolerant(25*time.Millisecond, check))
 }
